@@ -57,6 +57,14 @@ def run(prop, args, Ts, whichs, keep=None, level="proof", extra=None, functions=
         select = lambda w, c, order, backing, ety: ety in (None, "ES8", "EU64")
         run_.extra["quick_tier_reduction"] = "EnumView: underlying types int8_t and uint64_t only (all eight are checked by C19 in the quick tier and here in the thorough tier)"
     jobs = cpp_views.jobs(Ts, whichs, args.tier, prefix=prefix, flags=flags, select=select)
+    # second compile configuration: -DEMBOSS_NO_OPTIMIZATIONS (portable byte loops instead of memcpy/bswap/aligned casts, the
+    # non-two's-complement ConvertToSigned).  Quick tier: containers of 24 and 64 bits, widths 1/7/13/full; thorough: everything.
+    if args.tier == "quick":
+        nsel = lambda w, c, order, backing, ety: c in (24, 64) and w in (1, 7, 13, c) and ety in (None, "ES16", "EU64")
+        run_.extra["quick_tier_reduction_noopt"] = "EMBOSS_NO_OPTIMIZATIONS configuration: containers of 24 and 64 bits, widths 1, 7, 13 and full, enum underlying types int16_t/uint64_t (all in the thorough tier)"
+    else:
+        nsel = select
+    jobs += cpp_views.jobs(Ts, whichs, args.tier, prefix=prefix + "noopt:", flags=list(flags) + ["-DEMBOSS_NO_OPTIMIZATIONS"], select=nsel)
     for j in jobs:
         j["only_safety"] = only_safety
     jobs += list(more_jobs)
